@@ -14,8 +14,10 @@ from pathlib import Path
 pid, k = sys.argv[1], sys.argv[2]
 run_all = "--all" in sys.argv
 tier = sys.argv[sys.argv.index("--tier") + 1] if "--tier" in sys.argv else "quick"
-src = Path("/tmp/seed-out") / pid
-seeded_dir = Path("/verif/seeded") / f"{pid}-{k}"
+srcroot = sys.argv[sys.argv.index("--src") + 1] if "--src" in sys.argv else "/tmp/seed-out"
+label = sys.argv[sys.argv.index("--as") + 1] if "--as" in sys.argv else k
+src = Path(srcroot) / pid
+seeded_dir = Path("/verif/seeded") / f"{pid}-{label}"
 if not (src / f"patch{k}.diff").exists() and (seeded_dir / "patch.diff").exists():
     src = None
 patch = (src / f"patch{k}.diff") if src else seeded_dir / "patch.diff"
@@ -23,7 +25,7 @@ demo = (src / f"demo{k}.py") if src else seeded_dir / "demo.py"
 notes = (src / f"notes{k}.md") if src else seeded_dir / "notes.md"
 
 scratch = Path(tempfile.mkdtemp(prefix="jsv-seed-"))
-meta = {"property": pid, "variant": int(k), "ran": []}
+meta = {"property": pid, "variant": int(label), "ran": []}
 try:
     repo = scratch / "repo"
     subprocess.run(["git", "clone", "-q", "--no-hardlinks", "/repo", str(repo)], check=True)
